@@ -495,6 +495,10 @@ def fileTruncate (h : FileH) (newSize : Nat) : Prog (RC × FileH) := do
       let h := if nDNew ≤ 72 then { h with hdr := h.hdr.setW F_extension 0 }
                else { h with curExt := h.curExt.map fun ce => ce.setW F_extension 0 }
       return h : Prog FileH)
+  -- 3b. the shortened block lists reach the disk before the blocks are released
+  let (rc, h) ← fileFlush h
+  if rc ≠ rcOK then return (rc, h)
+  let h := { h with changed := false }
   -- 4. free the blocks
   for b in blocks do setBlockFree h.vol b
   -- 5.
